@@ -49,6 +49,7 @@ class Outbound(explore.Scenario):
     max_points = 40000
     idle_window = 8.0
     shared = SHARED_NODE
+    auto_shared = True
 
     def driver(self, rt):
         P = self.params
